@@ -67,7 +67,7 @@ def apalache_ind(work, cinit, expect_ok, mod='FramerAbs'):
     for init, length in (('Init', 0), ('IndInit', 1)):
         try:
             r = subprocess.run(['apalache-mc', 'check', '--cinit=' + cinit, '--init=' + init, '--inv=IndInv', '--length=%d' % length,
-                                '--out-dir=' + out_dir, spec], cwd=work, env=dict(os.environ, JVM_ARGS='-Djava.io.tmpdir=' + work), stdout=subprocess.PIPE, stderr=subprocess.STDOUT, text=True, timeout=900, preexec_fn=R.child_setup)
+                                '--out-dir=' + out_dir, spec], cwd=work, env=dict(os.environ, JAVA_IO_TMPDIR=work, TMPDIR=work, JVM_ARGS='-Djava.io.tmpdir=' + work), stdout=subprocess.PIPE, stderr=subprocess.STDOUT, text=True, timeout=900, preexec_fn=R.child_setup)
         except subprocess.TimeoutExpired:
             raise R.ToolError('apalache timed out on ' + mod + ' (' + cinit + ')')
         ok = 'EXITCODE: OK' in r.stdout
